@@ -993,6 +993,8 @@ class list_t(object):
         
     def clear(self):
         self.get_model().clear()
+        # Object lists also keep the user's element objects
+        self.backing_arr.clear()
 
     def __contains__(self, lhs):
         if get_expr_mode():
